@@ -21,6 +21,7 @@ import (
 	"strconv"
 	"strings"
 
+	"goa.design/goa/v3/expr"
 	goahttp "goa.design/goa/v3/http"
 	httpmw "goa.design/goa/v3/http/middleware"
 
@@ -135,6 +136,18 @@ func gen(seed uint64, tier string) {
 	if tier == "thorough" {
 		n = 300000
 	}
+	// the patterns a route is mounted under: API base path x service base paths x route path
+	for _, api := range fpAPI[1:] {
+		for _, route := range fpRoutes {
+			for nb := 0; nb <= 3; nb++ {
+				line := "fullpaths " + lp.Enc(api) + " " + lp.Enc(route)
+				for k := 0; k < nb; k++ {
+					line += " " + lp.Enc(lp.Pick(r, fpBases))
+				}
+				fmt.Println(line)
+			}
+		}
+	}
 	// byte-level functions on their own
 	for i := 0; i < n/4; i++ {
 		v := randValue(r, true)
@@ -199,7 +212,32 @@ func gen(seed uint64, tier string) {
 
 // ------------------------------------------------------------------ execution
 
+var (
+	fpAPI    = []string{"", "", "/api", "/v1/"}
+	fpBases  = []string{"/a", "/a/", "/b", "/c/{id}", "/c/{id}/", "/", "/deep/er"}
+	fpRoutes = []string{"/", "/x", "/x/", "/{k}", "/{k}/", "", "/x/y"}
+)
+
 func run(toks []string) string {
+	if toks[0] == "fullpaths" {
+		// the real expression model: API base path, a service with these base paths, one endpoint with this route
+		root := &expr.RootExpr{API: &expr.APIExpr{Name: "fp", HTTP: &expr.HTTPExpr{Path: lp.MustDec(toks[1])}}}
+		old := expr.Root
+		expr.Root = root
+		defer func() { expr.Root = old }()
+		svc := &expr.HTTPServiceExpr{ServiceExpr: &expr.ServiceExpr{Name: "s"}}
+		for _, b := range toks[3:] {
+			svc.Paths = append(svc.Paths, lp.MustDec(b))
+		}
+		root.API.HTTP.Services = []*expr.HTTPServiceExpr{svc}
+		ep := &expr.HTTPEndpointExpr{MethodExpr: &expr.MethodExpr{Name: "m"}, Service: svc}
+		route := &expr.RouteExpr{Method: "GET", Path: lp.MustDec(toks[2]), Endpoint: ep}
+		out := []string{"paths"}
+		for _, p := range route.FullPaths() {
+			out = append(out, lp.Enc(p))
+		}
+		return strings.Join(out, " ")
+	}
 	switch toks[0] {
 	case "esc":
 		return lp.Enc(url.PathEscape(lp.MustDec(toks[1])))
